@@ -1,5 +1,5 @@
 (* C20 -- the deterministic part of the "plentiful" clause, for matrices of every size the number types
-   never raises: a DataWarning needs an observed cell of a REQUESTED row.  A call whose rows have no interaction
+   allow: a DataWarning needs an observed cell of a REQUESTED row.  A call whose rows have no interaction
    at all never warns, on every draw stream -- also when n_rows * n_cols exceeds 2^32 and the data of OTHER
    rows sits at cells whose row-major / shifted cell numbers coincide modulo a word size with cells of
    the requested rows.  This rests on the combined key being injective on numbers below 2^32
